@@ -359,7 +359,7 @@ def c16():
                      "C16_split_plan_digits", "C16_split_plan_names_sorted", "C16_split_plan_defined",
                      "C16_api", "C16_single_file_any_interleaving", "C16_single_file_any_schedule",
                      "C16_single_file_equals_api", "C16_multi_file_any_schedule",
-                     "C16_overlapping_ranges_break", "C16_too_few_digits_break"],
+                     "C16_overlapping_ranges_break", "C16_too_few_digits_break", "C16_shuffle_multiset"],
         "model_files": ["Model/FpsUtil.v", "Model/FpsGen.v"],
         "suites": [suite_fps.suite_file_seq, suite_fps.suite_batches, suite_fps.suite_fps_cli,
                    __import__('suite_fpsgen').suite_fpsgen, __import__('suite_numpysem').suite_numpysem],
